@@ -32,7 +32,7 @@ class Universe:
 
         leaf_fields = [("a", "n", None), ("v", "n", None)]
         # two dynamically sized fields: values of one total size can split it differently (cached offsets of a view go stale)
-        d = {"_xofields": {"a": num(0, "a"), "v": num(0, "v"), "mat": xo.Float64[2, 2], "arr": xo.Float64[:], "brr": xo.Int64[:]}}
+        d = {"_xofields": {"a": num(0, "a"), "v": num(0, "v"), "mat": xo.Float64[2, 2], "name": xo.String, "arr": xo.Float64[:], "brr": xo.Int64[:]}}
         force = force or {}
         ren0 = {"v": "vee"} if r.random() < 0.5 else {}
         if "ren" in force:
@@ -72,7 +72,7 @@ class Universe:
         self.spec.append(([("s", "n", None), ("mid", k2, 1), ("leaf", k3, 0)], ren2))
         self.classes.append(Top)
         # class 3: a class DERIVED from Leaf that declares its fields again with its own defaults (and its own renaming)
-        d = {"_xofields": {"a": num(3, "a"), "v": num(3, "v"), "mat": xo.Float64[2, 2], "arr": xo.Float64[:], "brr": xo.Int64[:]}}
+        d = {"_xofields": {"a": num(3, "a"), "v": num(3, "v"), "mat": xo.Float64[2, 2], "name": xo.String, "arr": xo.Float64[:], "brr": xo.Int64[:]}}
         ren3 = {"a": "aye"} if r.random() < 0.5 else {}
         if "ren" in force:
             ren3 = dict(force["ren"][3])
@@ -96,7 +96,7 @@ class Universe:
         for ci, (fields, ren) in enumerate(self.spec):
             out.append(",".join([f"{n}>{ren.get(n, n)}=" + (f"n{self.defaults[(ci, n)]}" if k == "n" else f"{k}{c}") for n, k, c in fields]
                                 # a 2-D array of static shape (default: zeros), two arrays of dynamic shape (no default)
-                                + (["mat>mat=z4", "arr>arr=a", "brr>brr=a"] if ci in self.leaflike else [])))
+                                + (["mat>mat=z4", "name>name=a", "arr>arr=a", "brr>brr=a"] if ci in self.leaflike else [])))
         return "univ " + ";".join(out)
 
     def pyname(self, ci, xo_name):
@@ -109,6 +109,14 @@ class Universe:
         return None
 
 
+def short_text(r):
+    """a text of 0..7 UTF-8 bytes"""
+    t = "".join(r.choice(["a", "b", "z", "é", " ", "0"]) for _ in range(r.randrange(0, 6)))
+    while len(t.encode("utf-8")) > 7:
+        t = t[:-1]
+    return t
+
+
 def plain_default(U, ci):
     """plain-data value for a nested field of class ci (zeros, null references)"""
     out = {}
@@ -119,6 +127,7 @@ def plain_default(U, ci):
             out[n] = plain_default(U, c)
     if ci in U.leaflike:
         out["mat"] = [[0.0, 0.0], [0.0, 0.0]]
+        out["name"] = "abcdefg"
         out["arr"] = [0.0, 0.0]
         out["brr"] = [0, 0]
     return out
@@ -228,6 +237,7 @@ class Case:
             na = r.randint(0, 4)                      # one total size (4 items), different splits - an empty array included
             if r.random() < 0.6:                      # else: left at its default (zeros)
                 kw["mat"] = [[float(r.choice([0, 0, 1, 7])) for _ in range(2)] for _ in range(2)]
+            kw["name"] = short_text(r)                # a text of at most 7 bytes: every string occupies 16 bytes
             kw["arr"] = [float(r.randint(0, 9)) for _ in range(na)]
             kw["brr"] = [r.randint(10, 19) for _ in range(4 - na)]
         name = self.new_name()
@@ -454,6 +464,27 @@ class Case:
             self.ops.append(f"pyget {hn} {k}")
             self.exp.append(f"num {int(getattr(obj, k))}" if k in obj.__dict__ else "noattr")
 
+    def op_str(self, target=None, text=None):
+        """assign a text of the same storage size to the string field of a leaf-like instance (the model has no strings: the line is
+        recorded for the replay, the Mirror oracle checks the library)"""
+        cands = [(n, o) for n, o in self.insts() if self.U.cls_index(o) in self.U.leaflike]
+        if target is not None:
+            cands = [(target, self.handles[target])] if target in self.handles else []
+        if not cands:
+            return
+        hn, obj = self.r.choice(cands)
+        text = short_text(self.r) if text is None else text
+        self.ops.append("str " + hn + " " + (text.encode("utf-8").hex() or "-"))
+        self.exp.append(None)
+        self.last_target = None
+        try:
+            obj.name = text
+            self.tags["str.ok"] += 1
+            if str(obj.name) != text or str(obj._xobject.name) != text:
+                self.fail("C18:string-attribute", f"{hn}.name = {text!r}: the attribute reads {obj.name!r}, the buffer {obj._xobject.name!r}")
+        except Exception as ex:
+            self.fail("C18:set-raises:" + type(ex).__name__, f"{hn}.name = {text!r}: {str(ex)[:160]}")
+
     # ------------------------------------------------------------------ oracle
     def values(self, obj, depth=0):
         """value of a hybrid instance through its ATTRIBUTES (numbers, nested values; references as the referent's value)"""
@@ -469,6 +500,7 @@ class Case:
                 out[n] = self.values(v, depth + 1) if hasattr(v, "_xobject") else ("bare", self.xvalues(v, c))
         if ci in self.U.leaflike:
             out["mat"] = [float(x) for x in np.asarray(obj.mat).reshape(-1)]
+            out["name"] = str(obj.name)
             out["arr"] = [float(x) for x in obj.arr]
             out["brr"] = [int(x) for x in obj.brr]
         return out
@@ -486,6 +518,7 @@ class Case:
                 out[n] = self.xvalues(v, c, depth + 1)
         if ci in self.U.leaflike:
             out["mat"] = [float(q) for q in x.mat.to_nparray().reshape(-1)]
+            out["name"] = str(x.name)
             out["arr"] = [float(q) for q in x.arr.to_nparray()]
             out["brr"] = [int(q) for q in x.brr.to_nparray()]
         return out
@@ -615,8 +648,9 @@ def venc(U, ci, val):
         else:
             out.append(venc(U, c, v))
     if ci in U.leaflike:
-        for n in ("mat", "arr", "brr"):
-            out.append("a" + ("/".join(str(int(x)) for x in val[n]) or "-"))
+        for n in ("mat", "name", "arr", "brr"):
+            xs = val[n].encode("utf-8") if isinstance(val[n], str) else val[n]
+            out.append("a" + ("/".join(str(int(x)) for x in xs) or "-"))
     return "(" + " ".join(out) + ")"
 
 
@@ -628,6 +662,8 @@ def canon_dict(d):
         return "{" + ",".join(sorted(f"{k}:{canon_dict(v)}" for k, v in d.items() if k != "__class__")) + "}"
     if hasattr(d, "_fields") and hasattr(d, "_buffer"):        # a bare xobject stored for a reference
         return "{" + ",".join(sorted(f"{f.name}:{canon_dict(getattr(d, f.name))}" for f in d._fields)) + "}"
+    if isinstance(d, str):                                      # a string-valued field: its UTF-8 bytes
+        return "[" + ",".join(str(b) for b in d.encode("utf-8")) + "]"
     if hasattr(d, "to_nparray"):                                # an xobject array inside the full dictionary of a referent
         d = d.to_nparray()
     if hasattr(d, "__len__"):                                   # an array-valued field: a list of numbers
@@ -748,6 +784,8 @@ def replay_ops(ops, fails, tags):
                 c.op_copy(target=(w[2], int(w[3])))
             elif w[0] == "move":
                 c.op_move(target=(w[1], int(w[2])))
+            elif w[0] == "str":
+                c.op_str(target=w[1], text="" if w[2] == "-" else bytes.fromhex(w[2]).decode("utf-8"))
             elif w[0] == "pad":
                 c.bufs[int(w[1])].allocate(int(w[2]))
                 c.ops.append(line)
@@ -857,7 +895,7 @@ def run_history(r, fails, tags, n_ops):
     c.op_new(0)
     c.op_new(0)
     for _ in range(n_ops):
-        k = r.choice(["new", "new", "get", "get", "set", "set", "set", "set", "alias", "copy", "move", "py"])
+        k = r.choice(["new", "new", "get", "get", "set", "set", "set", "set", "alias", "copy", "move", "py", "str"])
         before = len(c.ops)
         c.last_target = None
         c.last_field = None
